@@ -124,6 +124,8 @@ func newCreateTable(ct sql.CreateTableStmt) (*Schema, error) {
 	}
 	unique := func(cols []IndexColumn) {
 		if pkDeferred && sameIndexColumns(st.PK, cols) {
+			// this index will be the primary key, with this sort order
+			st.PK = cols
 			pkDeferred = false
 			autoindex++
 			return
